@@ -15,7 +15,7 @@ RULE = ("Hypothesis generates Hermitian lattice models (N<=6 quick, <=8 thorough
 ASSUMPTIONS = ["numpy eigh", "reference H from the lattice's stored terms and pomerol's (verified bijective) index table",
                "partition soundness itself is C07's business; a pipeline stage before Hamiltonian::prepare that throws is counted as pipeline-exception"]
 CONFIG = {
-    "quick": {"flavours": ["real", "complex"], "shards": 8, "examples": 150, "min_nontrivial": 50, "budget_s": 100},
+    "quick": {"flavours": ["real", "complex"], "shards": 8, "examples": 1000, "min_nontrivial": 50, "budget_s": 120},
     "thorough": {"flavours": ["real", "complex"], "shards": 16, "examples": 2500, "min_nontrivial": 1500, "budget_s": 3000},
 }
 REQUIRED_CLASSES = {"quick": ["1x1-block", "block>=3", "complex-amplitudes", "one-block"], "thorough": ["1x1-block", "block>=3", "complex-amplitudes", "one-block"]}
